@@ -2069,11 +2069,39 @@ def run_C16(rep, tier, rng):
             rep.violation("a lexical error does not stay the same error, shifted by the change of layout in front of it",
                           {"source_a": p1 + tail, "source_b": p2 + tail, "result_a": o1[:300], "result_b": o2[:300],
                            "prefix_bytes_a": len(p1.encode()), "prefix_bytes_b": len(p2.encode())})
+    # comment bodies: everything up to the next LF belongs to the comment — a bare CR, VT, FF, NEL, LS or PS inside it
+    # does not end it, whatever follows on that line (own generator: the streams above stay as they were)
+    crng = random.Random(f"c16-comment-bodies-{rep.seed}")
+    inner = ["\r", "\x0b", "\x0c", "\u0085", "\u2028", "\u2029", "\r\r", " \r ", "\r\t"]
+    follow = ["see Wrap", "struct X { }", "$y", "}", "#[a]", "%", "start Q", "", "é", "// again"]
+    ncb = 0
+    cb = []
+    for items in bases[: (50 if tier == "quick" else 800)]:
+        tk = gen.tokens_of(items)
+        vs = [" ".join(tk) + "\n"]
+        for _ in range(2):
+            i = crng.randrange(len(tk) + 1)
+            c = "// c" + crng.choice(inner) + crng.choice(follow) + crng.choice(["\n", "\r\n"])
+            vs.append(" ".join(tk[:i]) + " " + c + " ".join(tk[i:]) + "\n")
+        cb.append(vs)
+    flat = [t for vs in cb for t in vs]
+    cbo = kv.run_impl("generate", [kv.hexs(t) for t in flat])
+    cbt = kv.run_impl("tokenize", [kv.hexs(t) for t in flat])
+    pos = 0
+    for vs in cb:
+        base = layout_canon(cbo[pos], cbt[pos], flat[pos])
+        for j in range(pos + 1, pos + len(vs)):
+            ncb += 1
+            other = layout_canon(cbo[j], cbt[j], flat[j])
+            if other != base:
+                rep.violation("a re-layout (whitespace / line endings / comments between tokens) changed the result of generate",
+                              {"source_a": flat[pos], "source_b": flat[j], "result_a": base[:1200], "result_b": other[:1200]})
+        pos += len(vs)
     pairs, dis = compare_stage_runs(rep, texts[: (150 if tier == "quick" else 1500)], "C16", keys={"tokens"})
     report_disagreements(rep, dis, "tokens of every layout", "C16_tokens")
     return {"evaluations": len(texts), "distinct_nontrivial": kv.distinct_count(texts),
             "rule": f"each base file (valid, conflicting, or with injected static violations; attributes included) in the plain layout and in {k} random re-layouts (any Unicode White_Space character, LF/CRLF, comments with arbitrary multi-byte content, comment at end of file without newline, no separator where the tokens allow it); results compared with the digest line blanked and every byte position replaced by the index of its token; every re-layout is a non-trivial case",
-            "samples": sample(texts[40:]), "base_outcomes": kinds, "model_disagreements": len(dis), "lexical_error_pairs": nlex}
+            "samples": sample(texts[40:]), "base_outcomes": kinds, "model_disagreements": len(dis), "lexical_error_pairs": nlex, "comment_body_variants": ncb}
 
 
 # =========================================================================================== registry
